@@ -164,6 +164,8 @@ impl SyncBlocker {
     #[inline]
     pub fn set_release(&self) {
         self.release.store(true, Ordering::Release);
+        #[cfg(may_verif)]
+        crate::verif::label("syncblocker.set_release", self as *const _ as usize);
     }
 
     // take the release Flag
